@@ -11,12 +11,18 @@ def norm(b):
 def generate(repo, emit, src, func_body):
     num = src('src/Num.c')
     b = norm(func_body(num, r'static\s+int\s+Int_Cmp\s*\([^)]*\)\s*\{'))
-    if re.search(r'returna<b\?-1:a>b\?1:0;', b) and 'int64_ta=Int_C_Int(self);' in b and 'int64_tb=c_int(obj);' in b:
-        emit('int_cmp_threeway', 'Definition int_cmp_threeway : bool := true.   (* source: return a < b ? -1 : a > b ? 1 : 0; *)')
-    elif re.search(r'return\(int\)\(Int_C_Int\(self\)-c_int\(obj\)\);', b) or re.search(r'return\(int\)\(a-b\);', b):
+    # int_cmp_threeway is ALWAYS defined (the executable model must keep building so that the
+    # correspondence can search for a failing input); int_cmp_shape_ok only when the text is one
+    # of the two known variants
+    three = bool(re.search(r'returna<b\?-1:a>b\?1:0;', b)) and 'int64_ta=Int_C_Int(self);' in b and 'int64_tb=c_int(obj);' in b
+    trunc = bool(re.search(r'return\(int\)\(Int_C_Int\(self\)-c_int\(obj\)\);', b) or re.search(r'return\(int\)\(a-b\);', b))
+    if trunc and not three:
         emit('int_cmp_threeway', 'Definition int_cmp_threeway : bool := false.   (* source: return (int)(a - b); *)')
     else:
-        emit('int_cmp_threeway', None)
+        emit('int_cmp_threeway', 'Definition int_cmp_threeway : bool := true.   (* source: %s *)'
+             % ('return a < b ? -1 : a > b ? 1 : 0;' if three else 'NOT RECOGNISED, three-way assumed'))
+    emit('int_cmp_shape_ok', 'Definition int_cmp_shape_ok : bool := true.   (* Int_Cmp is one of the two modelled variants *)'
+         if (three or trunc) else None)
 
     b = norm(func_body(num, r'static\s+int\s+Float_Cmp\s*\([^)]*\)\s*\{'))
     ok = b == '{doublec=Float_C_Float(self)-c_float(obj);returnc>0?1:c<0?-1:0;}'
